@@ -514,7 +514,11 @@ def divide_outputs(
                     mailboxes[d].send(x)
             except Exception as e:
                 # Inform the source we're going down
-                source.throw(e)
+                try:
+                    source.throw(e)
+                except StopIteration:
+                    # The source had nothing more to say
+                    pass
                 raise
             i += 1
 
